@@ -160,6 +160,22 @@ example : ∀ t ∈ ([(1, "a", (default : Field)), (2, "b", default)] : List (Na
   simp at ht
   rcases ht with rfl | rfl <;> rfl
 
+/-- C01 (ghost flavours, *table*, regenerated): `ghost_owned` / `ghosts_owned` apply to exactly the three owned
+    conversion kinds, `ghost_ref` / `ghosts_ref` to exactly the three by-reference kinds, and `ghost` / `ghosts` to all
+    six — at member level, variant level and type level. (The applicability vectors are read from the sources on every
+    run; the model interprets them, so only this theorem notices a slip inside one of them.) -/
+theorem C01_ghost_flavours :
+    ([("ghost_owned", Gen.memberArms, false), ("ghost_ref", Gen.memberArms, true),
+      ("ghosts_owned", Gen.memberArms, false), ("ghosts_ref", Gen.memberArms, true),
+      ("ghosts_owned", Gen.typeArms, false), ("ghosts_ref", Gen.typeArms, true)].all (fun (name, arms, isRef) =>
+        match findArm arms name true true with
+        | some a => Kind.all.all (fun k => (applOf a.appl name).get k == (k.isRef == isRef))
+        | none => false)
+     && [("ghost", Gen.memberArms), ("ghosts", Gen.memberArms), ("ghosts", Gen.typeArms)].all (fun (name, arms) =>
+        match findArm arms name true true with
+        | some a => Kind.all.all (fun k => (applOf a.appl name).get k)
+        | none => false)) = true := by decide
+
 /-! ### values (record semantics of `O2oModel/Sem.lean`)
 
 `fs` lists the members with, for each, its own name `n` and the counterpart member `x` the instructions designate
